@@ -5,6 +5,7 @@
 From Coq Require Import List Bool NArith ZArith.
 Import ListNotations.
 From Setec Require Import Base.SMap Base.Bytes Corr.Common Client.Store Client.Init.
+From Setec Require Server.DB Server.Http.
 
 Definition V := N.
 
@@ -14,12 +15,37 @@ Fixpoint assoc {X} (n : name) (l : list (name * X)) : option X :=
 Definition mk_map {X} (l : list (name * X)) : @smap name X := fold_left (fun acc '(k, x) => upd k x acc) l [].
 
 (* ---- inputs *)
-Definition A (lat_ns ver val : N) : answer V := ANS lat_ns (Some (ver, val)).
-Definition AF (lat_ns : N) : answer V := ANS lat_ns None.
+(* a scripted answer, paired with the sentinel the client reports for it when it is a failure
+   (0 none, 1 api.ErrNotFound, 2 api.ErrAccessDenied, 3 api.ErrValueNotChanged) *)
+Definition sans : Type := (answer V * N)%type.
+Definition A (lat_ns ver val : N) : sans := (ANS lat_ns (Some (ver, val)), 0%N).
+Definition AF (lat_ns kind : N) : sans := (ANS lat_ns None, kind).
+
+(* the network client (client/setec/client.go) over a scripted HTTP transport: the script is an HTTP
+   response - status and either a JSON api.SecretValue or some other body - after lat_ns, or a server that
+   accepts the request and never answers.  What setec.Client makes of a response is client.go's
+   status -> sentinel map as modelled (and proved against the server's error -> status map) in Server/Http.v;
+   for Store construction only a decoded value is a success, everything else a failed fetch. *)
+Definition cres_of (status : N) (body : option (N * V)) : Http.cres V :=
+  Http.client_of_response
+    (Http.Build_response status match body with Some (v, b) => Http.BodyResult (DB.RVal v b) | None => Http.BodyConst end).
+Definition AH (lat_ns status : N) (body : option (N * V)) : sans :=
+  match cres_of status body with
+  | Http.CResult (DB.RVal v b) => (ANS lat_ns (Some (v, b)), 0%N)
+  | Http.CNotFound => (ANS lat_ns None, 1%N)
+  | Http.CDenied => (ANS lat_ns None, 2%N)
+  | Http.CNotChanged => (ANS lat_ns None, 3%N)
+  | _ => (ANS lat_ns None, 0%N)
+  end.
+(* never answers: the request lasts until its context ends (2^62 ns, about 146 years, otherwise) *)
+Definition hang_ns : N := 4611686018427387904%N.
+Definition AHang : sans := (ANS hang_ns None, 0%N).
+
 (* per name: the answers to its first requests, then the answer to every later one *)
-Definition stab := list (name * (list (answer V) * answer V)).
-Definition script_of (tb : stab) : name -> nat -> answer V :=
-  fun n j => match assoc n tb with Some (l, d) => nth j l d | None => AF 0 end.
+Definition stab := list (name * (list sans * sans)).
+Definition sans_of (tb : stab) (n : name) (j : nat) : sans :=
+  match assoc n tb with Some (l, d) => nth j l d | None => AF 0 1 end.
+Definition script_of (tb : stab) : name -> nat -> answer V := fun n j => fst (sans_of tb n j).
 
 (* round k visits the names in the observed order, then the keys nobody asked about *)
 Definition order_of (rounds : list (list name)) : nat -> list name -> list name :=
@@ -49,6 +75,7 @@ Inductive oent := OD (n : name) (ver val : N) (last : Z) | ONull (n : name).
 
 Inductive obs :=
 | ObsErr (t : N) (reqs : list oreq)
+         (sent : N)                          (* which api sentinel the returned error is (errors.Is): 0 none, 1 not found, 2 access denied, 3 not changed *)
 | ObsOk (t : N) (reqs : list oreq)
         (writes : list (list oent))          (* payloads of Cache.Write during NewStore *)
         (preqs : list (name * N))            (* GetIfChanged calls of the probe poll *)
@@ -96,13 +123,42 @@ Definition val_of (s : store V) (n : name) : option N :=
 
 Definition fuel : nat := 64.
 
+(* the request whose failure ended construction (`return err` at store.go:704), if that is how it ended:
+   the last event of the trace is a failed request returning with the context dead.  Result: was the failure
+   caused by the context (cut off / refused because already dead) and the sentinel of the scripted answer. *)
+Fixpoint stop_cause (w : world V) (tb : stab) (seen : list name) (tr : list (ev V)) : option (bool * N) :=
+  match tr with
+  | [] => None
+  | EvReq n ts te r :: rest =>
+    match rest, r with
+    | [], None =>
+      if dead w te then
+        let j := length (filter (neqb n) seen) in
+        let '(a, kind) := sans_of tb n j in
+        let by_ctx := if dead w ts then w_strict w || (0 <? a_lat a)%N
+                      else match w_deadline w with Some d => (d <? ts + a_lat a)%N | None => false end in
+        Some (by_ctx, kind)
+      else None
+    | _, _ => stop_cause w tb (n :: seen) rest
+    end
+  | EvSleep _ _ :: rest => stop_cause w tb seen rest
+  end.
+(* an error caused by the end of the context is never reported as a verdict of the service ("not found",
+   "access denied"); an error the service did give may be passed on or replaced *)
+Definition sent_ok (w : world V) (tb : stab) (tr : list (ev V)) (sent : N) : bool :=
+  match stop_cause w tb [] tr with
+  | Some (true, _) => (sent =? 0)%N
+  | Some (false, kind) => (sent =? 0)%N || (sent =? kind)%N
+  | None => true
+  end.
+
 Definition check (c : case) : bool :=
   match c with
   | Case cfg cache tb strict deadline t0 epoch rounds snames probe_dt pt o =>
     let w := WORLD (script_of tb) strict deadline (order_of rounds) epoch t0 in
     match new_store cfg (option_map mk_map cache) w fuel, o with
-    | OMisconfig _, ObsErr t reqs => (t =? t0)%N && match reqs with [] => true | _ => false end
-    | OFail t tr, ObsErr t' reqs => (t =? t')%N && (c_file cfg || list_beq oreq_beq (ev_reqs tr) reqs)
+    | OMisconfig _, ObsErr t reqs _ => (t =? t0)%N && match reqs with [] => true | _ => false end
+    | OFail t tr, ObsErr t' reqs sent => (t =? t')%N && (c_file cfg || list_beq oreq_beq (ev_reqs tr) reqs) && sent_ok w tb tr sent
     | OOk s0 t tr fx, ObsOk t' reqs writes preqs pok pwrites vals fields =>
       (* Fields.Apply (store.go:252): LookupSecret + Get of every tagged name, after the flush *)
       let s := fold_left (fun acc n => fst (read (fst (secret_locked acc n)) n (now_s w t))) snames s0 in
